@@ -115,7 +115,7 @@ def shard(shard, nshards, rng, tier, extra):
         s, nw, nf = S.random_format(rng)
         vals = [S.as_number(v) for v in S.boundary_values(rng, s, nw, nf, rng.choice([1, 1, 2, 5]))]
         cases.append({'s': s, 'nw': nw, 'nf': nf, 'r': rng.choice(RMODES), 'o': rng.choice(OMODES), 'carrier': rng.choice(S.carriers_for(vals, rng)),
-                      'route': rng.choice(S.ROUTES), 'vals': vals, 'setmode': rng.choice(['slice', 'each'])})
+                      'route': rng.choice(S.ROUTES), 'vals': vals, 'setmode': rng.choice(['slice', 'each', 'view'])})
     check_relations(cases, res, 'B:random-formats')
     # ---- (T) n_frac < 0: non-zero floats whose scaled value underflows to zero, in arrays together with exact zeros (of either sign) and
     # representable values, in any order: a repair applied to the vanishing element must not touch its neighbours
